@@ -312,6 +312,25 @@ _ids_tricky = st.builds(
     st.sampled_from(['', '', '', '-pre1', ' Pre-Release 1', 'x', '.', ' ',
                      '-rc2', '_01']))
 
+# ids whose components are "digits" to str.isdigit() / str.isnumeric() without
+# being decimal numbers (superscripts, circled and other digit-like
+# characters pasted from formatted text): not dotted decimal numbers under any
+# reading, so never releases.  Ids on which readings of "dotted decimal
+# number" can differ (a trailing newline, non-ASCII decimal digits) are
+# deliberately not generated.
+_DIGITLIKE = ['\u00b9', '\u00b2', '\u00b3', '\u2460', '\u2474', '\u2081',
+              '\u2079', '\u00bd', '\u2162', '\u3007', '\u4e09']
+_ids_digitlike = st.builds(
+    lambda base, pos, ch, dbl: (
+        lambda parts: '.'.join(
+            (q + ch if dbl % 3 == 0 else ch if dbl % 3 == 1 else ch + q)
+            if i == pos % len(parts) else q for i, q in enumerate(parts)))(
+                base.split('.')),
+    st.one_of(_ids_release, st.builds(lambda a, b: '%d.%d' % (a, b),
+                                      st.integers(0, 3), st.integers(0, 99))),
+    st.integers(0, 5), st.sampled_from(_DIGITLIKE), st.integers(0, 2))
+_ids_tricky = st.one_of(_ids_tricky, _ids_tricky, _ids_digitlike)
+
 
 class VersionsMachine(RuleBasedStateMachine):
     ctx = None
